@@ -1171,8 +1171,9 @@ func (e *Engine) dropDetached(op *Op) error {
 	e.Stats.label("detached_disposed")
 	if op.D == 1 && d.Count() <= 2 {
 		// a value the client knows to be a single slab of plain scalars can be removed by identifier
-		// without loading it first
-		blind := true
+		// without loading it first (not a map under the colliding hash-input provider: even two small
+		// colliding entries can live in an external collision group, i.e. in a second slab)
+		blind := !(d.IsMap && e.Cfg.HipGroups > 0)
 		vals := d.Elems
 		if d.IsMap {
 			vals = nil
